@@ -19,6 +19,10 @@ const Enabled = true
 // name of the scheduling point.
 var Hook func(ctx context.Context, point string)
 
+// Dead is installed by the simulator; it reports whether the simulated process
+// the calling task belongs to has been killed.
+var Dead func(ctx context.Context) bool
+
 // Yield hands control to the simulator, if one is installed.
 func Yield(ctx context.Context, point string) {
 	if h := Hook; h != nil {
@@ -37,6 +41,12 @@ func BeforeLock(ctx context.Context, mu *sync.Mutex, point string) {
 		return
 	}
 	for !mu.TryLock() {
+		if d := Dead; d != nil && d(ctx) {
+			// The simulated process has been killed while the holder may never
+			// release: a goroutine of a dead process must not spin nor block on
+			// the mutex (neither is a durable block for testing/synctest).
+			select {}
+		}
 		Yield(ctx, point)
 	}
 	mu.Unlock()
